@@ -1,7 +1,7 @@
 (* C11 -- separate-process mode contains every way a test can die.
    Only statements; every proof is `exact <lemma>` into C11_Words.v / C11_Proofs.v / C11_Loop.v / C11_Compose.v. *)
 From Coq Require Import NArith ZArith List Bool Arith.
-From CppUVerif Require Import gen.Gen_C11 C11_Model C11_Words C11_Proofs C11_Loop C11_Compose.
+From CppUVerif Require Import gen.Gen_C11 C11_Model C11_Words C11_Proofs C11_Loop C11_Compose C11_Passes.
 Import ListNotations.
 Local Open Scope N_scope.
 
@@ -162,9 +162,87 @@ Theorem C11_real_child_contained : forall count p inject, prog_ok p = true ->
 Proof. exact real_child_contained. Qed.
 Print Assumptions C11_real_child_contained.
 
-(* the model's run satisfies the property's oracle for every valid scenario *)
-Theorem C11_run_meets_spec : forall s, valid s = true -> spec s (run s) = true.
+(* the model's run of ONE pass satisfies the one-pass oracle for every valid one-pass scenario (the statement that was
+   C11_run_meets_spec before the language had several passes; the one-pass language is the one-step fragment of the extended
+   one: C11_single_pass_embeds) *)
+Theorem C11_run_meets_spec_single : forall s, valid s = true -> spec s (run s) = true.
 Proof. exact run_meets_spec. Qed.
+Print Assumptions C11_run_meets_spec_single.
+
+(* --------------------------------------------------------------------------------------------------------------
+   several runAllTests passes over one registry: switches set before the first pass or between passes, tests added
+   between passes
+   -------------------------------------------------------------------------------------------------------------- *)
+(* the flags are re-established by EVERY pass from the registry's switches as they are then: pass k of the run (registry,
+   shells carrying sticky flags, the loop pushing the switches) is, item for item, the closed form read off the program text --
+   every test present in pass k, newest first, run on (its own flag || separate-process switched on before any of the passes
+   0..k, run-ignored switched on before any of them); and the runner is alive after the last pass *)
+Theorem C11_every_pass_from_current_switches : forall s,
+  mo_passes (run_m s) = map (pass_view s) (seq 0 (length s)) /\ mo_died (run_m s) = false.
+Proof. exact every_pass_from_current_switches. Qed.
+Print Assumptions C11_every_pass_from_current_switches.
+
+(* ... which is the FIRST pass of a fresh registry that is given today's switches and today's tests (stated for shells
+   without a flag of their own, the one-pass language has no such flag) *)
+Theorem C11_pass_as_fresh_registry : forall s k, (forall mc, In mc (present s k) -> m_own mc = false) ->
+  pass_view s k = run {| s_all_sep := want_sep s k; s_run_ign := want_ri s k; s_tests := map (eff k) (present s k) |}.
+Proof. exact pass_as_fresh_registry. Qed.
+Print Assumptions C11_pass_as_fresh_registry.
+
+(* the parent lives through every pass, there are as many passes as the program asks for, and in every pass every test that
+   is in the registry by then is met, the count is the sum and every test is counted once (run or ignored) *)
+Theorem C11_parent_survives_every_pass : forall s,
+  mo_died (run_m s) = false /\ length (mo_passes (run_m s)) = length s /\
+  forall k o, nth_error (mo_passes (run_m s)) k = Some o ->
+    length (o_items o) = length (present s k) /\ o_total o = total_fails (o_items o) /\
+    o_run o + o_ign o = N.of_nat (length (present s k)).
+Proof. exact parent_survives_every_pass. Qed.
+Print Assumptions C11_parent_survives_every_pass.
+
+(* containment in every pass: a real child that shows its behaviour in pass k and is to run there -- whenever it was added,
+   whenever the mode was switched on, whatever flags the shells picked up in earlier passes -- is recorded exactly as the wait
+   loop records its stream of events: the loop does not run out of events, failures / waits / reaped are the property's account
+   of that stream, and a child killed by a signal (no stop, no wait fault) is exactly one failure naming the signal, one wait,
+   nothing left behind *)
+Theorem C11_dying_test_contained_in_every_pass : forall s k o i mc ig p inject,
+  nth_error (mo_passes (run_m s)) k = Some o ->
+  nth_error (present s k) i = Some mc ->
+  m_case mc = {| c_ign := ig; c_test := TReal p inject |} ->
+  (m_from mc <= k)%nat ->
+  ig && negb (want_ri s k) = false ->
+  prog_ok p = true ->
+  let lr := parent_loop 0 (map conc (real_stream p inject)) in
+  nth_error (o_items o) i = Some (item_of_loop true lr) /\
+  lr_end lr <> EndStreamOut /\
+  expect tolerated (real_stream p inject) = (length (lr_fails lr), lr_calls lr, reaped_end (lr_end lr)) /\
+  (forall sig, inject = [] -> child_trace p = ([], FateKilled sig) ->
+     item_of_loop true lr = {| i_started := true; i_fails := [FKilled sig]; i_calls := 1; i_conts := 0; i_lost := false |}).
+Proof. exact dying_test_contained. Qed.
+Print Assumptions C11_dying_test_contained_in_every_pass.
+
+(* a mode that is on in pass k is on in every later pass (there is no switching off) *)
+Theorem C11_modes_only_grow : forall s k j, (k <= j)%nat ->
+  (want_sep s k = true -> want_sep s j = true) /\ (want_ri s k = true -> want_ri s j = true).
+Proof. exact modes_only_grow. Qed.
+Print Assumptions C11_modes_only_grow.
+
+(* a registry that pushes its switches onto the shells in its first pass only does NOT meet the oracle: a mode switched on
+   after a pass (witness ex_late_switch), a test added after a pass (ex_late_test) *)
+Theorem C11_first_pass_only_refuted : ~ first_pass_only_stmt.
+Proof. exact first_pass_only_refuted. Qed.
+Print Assumptions C11_first_pass_only_refuted.
+
+(* the one-pass language is the one-step fragment: same run, same oracle, same domain *)
+Theorem C11_single_pass_embeds : forall s,
+  run_m (embed s) = {| mo_passes := [run s]; mo_died := false |} /\
+  (forall o, spec_m (embed s) {| mo_passes := [o]; mo_died := false |} = spec s o) /\
+  valid_m (embed s) = valid s.
+Proof. exact single_pass_embeds. Qed.
+Print Assumptions C11_single_pass_embeds.
+
+(* the model's run satisfies the property's oracle for every valid scenario of the extended language (any number of passes) *)
+Theorem C11_run_meets_spec : forall s, valid_m s = true -> spec_m s (run_m s) = true.
+Proof. exact run_m_meets_spec. Qed.
 Print Assumptions C11_run_meets_spec.
 
 (* --------------------------------------------------------------------------------------------------------------
